@@ -39,11 +39,13 @@ func (t *Tracer) trace(c context.Context, pgid int) (result runner.Result) {
 	go func() {
 		defer close(cancelDone)
 		<-cc.Done()
+		verifCancelGate(pgid, 0)
 		killAll(pgid)
 		if c.Err() != nil {
 			// cancelled by the caller: the child may not have created its process group yet (before setsid)
 			unix.Kill(pgid, unix.SIGKILL)
 		}
+		verifCancelGate(pgid, 1)
 	}()
 
 	sTime := time.Now()
